@@ -296,7 +296,7 @@ def split_episodes(path):
 
 
 def validate_sharded(module, cfg, trace_path, workdir, shards=None,
-                     max_failures=25, timeout=1800, env=None):
+                     max_failures=6, timeout=1800, env=None):
     """Validate a long multi-episode trace: shard by episodes over several TLC
     processes; on a rejection isolate the failing episode, confirm it alone
     (a rejection is reported only if it repeats), drop it and go on.
